@@ -136,6 +136,8 @@ func VerifC08_migrate() {
 		nw := &storageNodeV3{}
 		sym.Assert(nw.MigrateFrom(old) == nil, "blobber v2 -> v3 migrates")
 		sym.Assert(sym.DeepEqual(old.GetBase(), nw.GetBase()), "blobber v2 -> v3: no common field is lost")
+		// fields the two versions share beyond the base view
+		sym.Assert(nw.IsRestricted != nil && *nw.IsRestricted == *old.IsRestricted, "blobber v2 -> v3: the restricted flag (common to v2 and v3) is kept")
 		sym.Cover("blobber v2 -> v3")
 	case 2:
 		sa := vC08Alloc(false)
